@@ -134,6 +134,9 @@ template void inst1<0>();
 template void inst1<1>();
 template void inst1<2>();
 template void inst1<3>();
+template void inst2<0, 0>();   // smallest kernels (one / two product coefficients)
+template void inst2<0, 1>();
+template void inst2<1, 0>();
 template void inst2<1, 1>();
 template void inst2<2, 1>();
 template void inst2<0, 3>();
